@@ -482,13 +482,16 @@ class Verifier:
         # the branch conditions were decided on the quantifier-free part only; an exit whose full
         # path condition is inconsistent is an infeasible path (and if every exit is, the contract's
         # assumptions are inconsistent: vacuity guard)
-        res.canaries += 1
-        cs = z3.Solver()
-        cs.set("timeout", 1500)
-        cs.add(eng.pc)
-        if cs.check() == z3.unsat:
-            res.infeasible_full = getattr(res, "infeasible_full", 0) + 1
-            return
+        if eng.quant_branched or res.canaries < 3:
+            res.canaries += 1
+            cs = z3.Solver()
+            cs.set("timeout", 1500)
+            cs.add(eng.pc)
+            if cs.check() == z3.unsat:
+                if eng.quant_branched:
+                    res.infeasible_full = getattr(res, "infeasible_full", 0) + 1
+                    return
+                res.canary_proved += 1       # no quantified branch was taken: the assumptions themselves are inconsistent
         res.feasible_exits += 1
         env = dict(eng.entry_env)
         if frame.parent is not None:
